@@ -44,6 +44,7 @@ def run(ctx: Context) -> None:
     with ctx.section('R06.12'):
         from . import infra as _infra612
         _infra612.role_bindings(ctx, 'R06.12')
+        _infra612.arakawa_topology_roles(ctx, 'R06.12')
     ctx.rule('R06.11', "the coordinates a CF grid is built from are found by CF's own markers: units in the CF spellings, standard_name, or axis - any one, and nothing else", floor=4)
     with ctx.section('R06.11'):
         from . import infra as _infra611
@@ -592,6 +593,7 @@ _U = 'src/emsarray/conventions/ugrid.py'
 _B = 'src/emsarray/conventions/_base.py'
 _S = 'src/emsarray/conventions/shoc.py'
 VARIANTS = [
+    V('C06', 'arakawa-latitude-from-the-x-name', 'src/emsarray/conventions/arakawa_c.py', "                latitude=coords[0],\n                longitude=coords[1],", "                latitude=coords[1],\n                longitude=coords[0],", 'R06.12'),
     V('C06', 'latitude-reads-longitude-name', 'src/emsarray/conventions/grid.py', "        return self.dataset[self.latitude_name]", "        return self.dataset[self.longitude_name]", 'R06.12'),
     V('C06', 'arakawa-left-grid-is-back-grid', 'src/emsarray/conventions/arakawa_c.py', "        return self._topology_for_grid_kind[ArakawaCGridKind.left]", "        return self._topology_for_grid_kind[ArakawaCGridKind.back]", 'R06.12'),
     V('C06', 'arakawa-inventory-names-left-longitude-twice', 'src/emsarray/conventions/arakawa_c.py', "            self.left.latitude.name,", "            self.left.longitude.name,", 'R06.12'),
